@@ -39,11 +39,17 @@ Proof. exact no_rule_builtin. Qed.
 Print Assumptions C07_none.
 
 (* which words are skipped as an assignment prefix before the rules are consulted: exactly bash's assignment
-   words NAME=v, NAME+=v, NAME[sub]=v, NAME[sub]+=v (NAME an ASCII identifier, sub without "]") - so a command
+   words NAME=v, NAME+=v, NAME[sub]=v, NAME[sub]+=v (NAME an ASCII identifier, sub without "[" and "]": bash matches brackets inside a subscript, `a[[]=]` is a command name) - so a command
    whose name merely contains "=" (./a=b.sh) is offered to the rules under its own name *)
 Theorem C07_assignment_words : forall w, is_assignment w = true <-> assignment_word w.
 Proof. exact is_assignment_spec. Qed.
 Print Assumptions C07_assignment_words.
+
+Theorem C07_bracket_in_subscript_is_a_command_name : forall c name sub v,
+  forallb ident_char name = true -> mem_ch 91 sub = true -> mem_ch 93 sub = false ->
+  is_assignment (c :: name ++ 91 :: sub ++ 93 :: v) = false.
+Proof. exact bracket_in_subscript_not_assignment. Qed.
+Print Assumptions C07_bracket_in_subscript_is_a_command_name.
 
 Theorem C07_command_name_kept : forall c r, ident_start c = false -> is_assignment (c :: r) = false.
 Proof. exact not_assignment_head. Qed.
